@@ -255,6 +255,17 @@ for k := 1; k < len(e); k++ {
             return None
         return expect_events(evs, [('l', [str(len(RAW))]), ('b', [U.select('in_1', [str(x) for x in RAW])])])
     cases.append(case('literal_raw', '', 'const lit = %s\ni := NondetRange(1, 0, %d)\nprintln("l", len(lit))\nprintln("b", lit[i])' % (raw, len(RAW) - 1), t_raw))
+    def t_named(evs, end, inputs):
+        if end[0] != 'normal':
+            return None
+        ln, bs = U.encode('in_0')
+        exp = [('n', [ln, ln, ln, '3', '3'])]
+        for i in range(4):
+            exp.append(('b', [U.select('(- %s 1)' % ln, [bs[min(i, k)] if i <= k else '(- 1)' for k in range(4)]) if False else ('(ite (< %d %s) %s (- 1))' % (i, ln, bs[i]))] * 3))
+        return expect_events(evs, exp)
+    cases.append(case('named_elem_slice_conversions', 'type myRune rune\ntype myRunes []myRune\ntype myByte byte\ntype myBytes []myByte\n//go:noinline\nfunc at(s string, i int) int {\n\tif i < len(s) {\n\t\treturn int(s[i])\n\t}\n\treturn -1\n}\n',
+                      'r := NondetInt32(0)\ns1 := string([]myRune{myRune(r)})\ns2 := string(myRunes{myRune(r)})\ns3 := string([]rune{r})\nb1 := string([]myByte{65, 200, 66})\nb2 := string(myBytes{65, 200, 66})\nprintln("n", len(s1), len(s2), len(s3), len(b1), len(b2))\nfor i := 0; i < 4; i++ {\n\tprintln("b", at(s1, i), at(s2, i), at(s3, i))\n}\nrs := []myRune(s3)\nbs := []myByte(b1)\nprintln("c", len(rs), len(bs), int(bs[1]))', None))
+    cases[-1] = case('named_elem_slice_conversions', cases[-1].decl, cases[-1].body.replace('\nrs := []myRune(s3)\nbs := []myByte(b1)\nprintln("c", len(rs), len(bs), int(bs[1]))', ''), t_named)
     return cases
 
 
